@@ -28,6 +28,10 @@ CONSTANTS MaxFun,            \* evaluation budget
           NdirsInit,         \* growing.ndirs_initial (0 = npt-1, i.e. a full initial set); with fewer directions the set GROWS by one point per iteration
           WithNoise,         \* noise.quit_on_noise_level: "all values within noise level" may end the run / trigger a restart at the top of an iteration
           RegSteps,          \* regression.num_extra_steps: geometry steps on the furthest points after a successful trust-region step
+          WithHuge,          \* TRUE: an objective value of +Inf may come from FINITE residuals whose squares overflow (|r| ~ 1e200): the fit then succeeds although
+                             \* a slot holds +Inf.  FALSE: +Inf always means an infinite residual (the fit fails)
+          NoisyObjective,    \* TRUE: evaluating the same point twice may give different values (C04 then claims nothing; a hard restart that re-evaluates
+                             \* its start point need not see the recorded value again)
           RhoDropAny,        \* FALSE: reduce_rho drops one level at a time; TRUE: any number of levels (the real factor depends on rho/rhoend - used when real
                              \* runs, whose number of reductions per run varies, are checked against this specification: DfolsCtl.tla)
           WithAuto, WithFalseSuccess,   \* include the auto-detected-restart / false-success exits (switched off for the driven replay, which cannot script them)
@@ -49,7 +53,8 @@ MinI(a, b) == IF a <= b THEN a ELSE b
 
 VARIABLES pc, nf, nx, nruns, mdl, rho, rhoendL, rhoendC, softLSR, softLastFopt, hardLSR, best, exitInfo,
           ptval, ptns, geomLeft, addLeft, restarts, x0inherit, ret, npt, batchlog,
-          reg,       \* regression extra steps in progress: [left, done]  (done = slots excluded: the incumbent of that moment and slots already moved)
+          reg,       \* regression extra steps in progress: [left, done, after]  (done = slots excluded: the incumbent of that moment and slots already moved;
+                     \* after = where the iteration goes on once they are done: "loop" if ratio >= eta1, "trtailpos" if 0 < ratio < eta1)
           geomDone,  \* slots already moved by the geometry steps of the soft restart in progress (the code moves DISTINCT closest points)
           phaseReq   \* samples per point asked for by the nsamples callback for a whole phase (initial set; one soft restart): the code calls it once per phase
 vars == <<pc, nf, nx, nruns, mdl, rho, rhoendL, rhoendC, softLSR, softLastFopt, hardLSR, best, exitInfo,
@@ -70,7 +75,7 @@ Growing == Len(mdl.slots) < mdl.numpts
 
 Init == /\ pc = "x0eval" /\ nf = 0 /\ nx = 0 /\ nruns = 0 /\ mdl = NoModel /\ rho = RhoLevels /\ rhoendL = 0 /\ rhoendC = 0
         /\ softLSR = 0 /\ softLastFopt = 0 /\ hardLSR = 0 /\ best = NoBest /\ exitInfo = NoExit /\ ptval = <<>> /\ ptns = <<>>
-        /\ geomLeft = 0 /\ addLeft = 0 /\ restarts = 0 /\ x0inherit = FALSE /\ ret = NoBest /\ npt = NPT /\ batchlog = <<>> /\ phaseReq = 1 /\ geomDone = {} /\ reg = [left |-> 0, done |-> {}]
+        /\ geomLeft = 0 /\ addLeft = 0 /\ restarts = 0 /\ x0inherit = FALSE /\ ret = NoBest /\ npt = NPT /\ batchlog = <<>> /\ phaseReq = 1 /\ geomDone = {} /\ reg = [left |-> 0, done |-> {}, after |-> "loop"]
 
 \* ------------------------------------------------------------------ evaluate_objective (controller.py:625-659)
 \* One batch: req samples requested; ran = min(req, MaxFun - nf) are run.  v1 = objective of the first sample,
@@ -109,7 +114,7 @@ X0Eval ==
      ELSE \E req \in 1..MaxSamples : \E v \in EvalVals :
           LET ran == MinI(req, MaxFun - nf) IN       \* the first evaluation is unconditional: guarded by nf < MaxFun below
           /\ nf < MaxFun
-          /\ ((best.has /\ MaxSamples = 1) => v = best.obj)   \* deterministic objective: re-evaluating the restart point (the best point so far) returns its value
+          /\ ((best.has /\ MaxSamples = 1 /\ ~NoisyObjective) => v = best.obj)   \* deterministic objective: re-evaluating the restart point (the best point so far) returns its value
           /\ Counted(req, v, v)
           /\ LET e == IF Leq(v, Small) THEN Exit("success", "small") ELSE IF ran < req THEN Exit("maxfun", "maxfun") ELSE NoExit IN
              IF e # NoExit
@@ -151,7 +156,7 @@ InitPoint ==
 Interpolate ==
   /\ pc = "loop"
   /\ \/ /\ mdl' = InterpM(mdl, FALSE) /\ RestartOrExit(Exit("linalg", "interp"))
-     \/ /\ ~HasNonFinite(mdl) /\ (WithInf => \A k \in 1..Len(mdl.slots) : mdl.slots[k].obj # Inf)
+     \/ /\ ~HasNonFinite(mdl) /\ ((WithInf /\ ~WithHuge) => \A k \in 1..Len(mdl.slots) : mdl.slots[k].obj # Inf)
         /\ mdl' = InterpM(mdl, TRUE) /\ pc' \in {"safety", "tr"} /\ UNCHANGED <<exitInfo, nruns>>
   /\ NoEval /\ UNCHANGED <<ret, restarts, phaseReq, reg>> /\ UNCHANGED Radii /\ UNCHANGED Hard /\ UNCHANGED Soft
 
@@ -211,12 +216,16 @@ TRStep ==
                      /\ (k = mdl.kopt => Lt(v, ObjOpt(mdl)))
                      /\ mdl' = IntoSlot(mdl, k, v1, v, Ran(req), nx + 1)
                      /\ \/ Growing /\ pc' = "loop" /\ UNCHANGED <<exitInfo, nruns>>     \* growing: next iteration whatever the ratio (no geometry steps, no rho update)
-                        \/ ~Growing /\ Lt(v, ObjOpt(mdl)) /\ pc' = (IF RegSteps > 0 THEN "regress" ELSE "loop") /\ UNCHANGED <<exitInfo, nruns>>     \* successful step (ratio >= eta1)
+                        \* ratio > 0 (the value improved) and regression steps are configured: they come first, whatever the size of the ratio (solver.py:781-801)
+                        \/ ~Growing /\ Lt(v, ObjOpt(mdl)) /\ RegSteps > 0 /\ pc' = "regress" /\ UNCHANGED <<exitInfo, nruns>>
+                        \/ ~Growing /\ Lt(v, ObjOpt(mdl)) /\ RegSteps = 0 /\ pc' = "loop" /\ UNCHANGED <<exitInfo, nruns>>     \* successful step (ratio >= eta1)
                         \/ ~Growing /\ Lt(v, ObjOpt(mdl)) /\ RestartOrExit(Exit("slow", "slow"))
                         \/ WithFalseSuccess /\ ~Growing /\ Lt(v, ObjOpt(mdl)) /\ mdl.save.has /\ Lt(mdl.save.obj, v) /\ RunExit(Exit("false_success", "false_success"))
+                        \* ratio < eta1 (includes small positive ratios: the value improved, the step still counts as unsuccessful)
                         \/ ~Growing /\ ~Lt(v, ObjOpt(mdl)) /\ pc' = "trtail" /\ UNCHANGED <<exitInfo, nruns>>
+                        \/ ~Growing /\ Lt(v, ObjOpt(mdl)) /\ RegSteps = 0 /\ pc' = "trtailpos" /\ UNCHANGED <<exitInfo, nruns>>
   \* entering the regression phase: the furthest-point list is computed once, from the incumbent AFTER the update; one sample request for the phase
-  /\ reg' = IF pc' = "regress" THEN [left |-> MinI(RegSteps, Len(mdl'.slots) - 1), done |-> {mdl'.kopt}] ELSE reg
+  /\ IF pc' = "regress" THEN \E a \in {"loop", "trtailpos"} : reg' = [left |-> MinI(RegSteps, Len(mdl'.slots) - 1), done |-> {mdl'.kopt}, after |-> a] ELSE reg' = reg
   /\ phaseReq' \in (IF pc' = "regress" THEN 1..MaxSamples ELSE {phaseReq})
   /\ UNCHANGED <<ret, restarts>> /\ UNCHANGED Radii /\ UNCHANGED Hard /\ UNCHANGED Soft
 
@@ -224,22 +233,24 @@ TRStep ==
 Regress ==
   /\ pc = "regress"
   /\ IF reg.left = 0
-     THEN pc' = "loop" /\ NoEval /\ UNCHANGED <<mdl, exitInfo, nruns, reg>>
+     THEN pc' = reg.after /\ NoEval /\ UNCHANGED <<mdl, exitInfo, nruns, reg>>
      ELSE \/ \E k \in (1..Len(mdl.slots)) \ reg.done :
                /\ EvalIntoR(k, "regress", {phaseReq})
-               /\ reg' = [left |-> reg.left - 1, done |-> reg.done \cup {k}]
+               /\ reg' = [reg EXCEPT !.left = reg.left - 1, !.done = reg.done \cup {k}]
           \/ RestartOrExit(Exit("linalg", "geom")) /\ NoEval /\ UNCHANGED <<mdl, reg>>
   /\ UNCHANGED <<ret, restarts, phaseReq>> /\ UNCHANGED Radii /\ UNCHANGED Hard /\ UNCHANGED Soft
 
 \* after an unsuccessful step: geometry / reduce rho / stop (solver.py:858-931)
+\* pc = "trtail": ratio <= 0;  pc = "trtailpos": 0 < ratio < eta1 - the value improved, so after the geometry check the iteration simply goes on
+\* (solver.py:905-907): no reduction of rho, no rho = rhoend exit from here
 TRTail ==
-  /\ pc = "trtail"
+  /\ pc \in {"trtail", "trtailpos"}
   /\ \/ (\E k \in 1..Len(mdl.slots) : k # mdl.kopt /\ EvalInto(k, "loop")) /\ UNCHANGED Radii
      \/ RestartOrExit(Exit("linalg", "geom")) /\ NoEval /\ UNCHANGED mdl /\ UNCHANGED Radii
      \/ WithAuto /\ UseRestarts /\ RestartOrExit(Exit("auto", "auto")) /\ NoEval /\ UNCHANGED mdl /\ UNCHANGED Radii
      \/ pc' = "loop" /\ NoEval /\ UNCHANGED <<mdl, exitInfo, nruns>> /\ UNCHANGED Radii
-     \/ rho > rhoendL /\ ReduceRho /\ pc' = "loop" /\ NoEval /\ UNCHANGED <<mdl, exitInfo, nruns, rhoendL, rhoendC>>
-     \/ /\ ~(rho > rhoendL) /\ NoEval /\ UNCHANGED mdl /\ UNCHANGED Radii
+     \/ pc = "trtail" /\ rho > rhoendL /\ ReduceRho /\ pc' = "loop" /\ NoEval /\ UNCHANGED <<mdl, exitInfo, nruns, rhoendL, rhoendC>>
+     \/ /\ pc = "trtail" /\ ~(rho > rhoendL) /\ NoEval /\ UNCHANGED mdl /\ UNCHANGED Radii
         /\ IF UseRestarts /\ SoftRestarts THEN pc' = "softadmit" /\ UNCHANGED <<exitInfo, nruns>>
            ELSE RunExit(Exit("success", "rhoend"))
   /\ UNCHANGED <<ret, restarts, phaseReq, reg>> /\ UNCHANGED Hard /\ UNCHANGED Soft
@@ -270,10 +281,12 @@ SoftDone == /\ pc' = "loop" /\ nruns' = nruns + 1 /\ restarts' = restarts + 1
 SoftGeom ==
   /\ pc = "softgeom"
   /\ IF geomLeft > 0
-     THEN /\ \E k \in (1..Len(mdl.slots)) \ geomDone :
-               /\ (MoveXk /\ geomDone = {} => k = mdl.kopt)   \* the incumbent is its own closest point
-               /\ EvalIntoR(k, "softgeom", {phaseReq})
-               /\ geomDone' = geomDone \cup {k}
+     THEN /\ \/ \E k \in (1..Len(mdl.slots)) \ geomDone :
+                  /\ (MoveXk /\ geomDone = {} => k = mdl.kopt)   \* the incumbent is its own closest point
+                  /\ EvalIntoR(k, "softgeom", {phaseReq})
+                  /\ geomDone' = geomDone \cup {k}
+             \/ \* the geometry step fails in the kernel (singular Lagrange system): the run ends there (controller.py:831-834)
+                /\ RunExit(Exit("linalg", "geom")) /\ NoEval /\ UNCHANGED <<mdl, geomDone>>
           /\ geomLeft' = geomLeft - 1 /\ UNCHANGED <<addLeft, restarts, rhoendL, rhoendC>>
      ELSE IF addLeft > 0
      THEN \* restarts.increase_npt: evaluate and append a new point (add_new_point)
@@ -333,8 +346,8 @@ C03_EveryIter == /\ \A k \in 1..Len(mdl.slots) : Designates(mdl.slots[k])
                  /\ (mdl.save.has => Designates(mdl.save))
 C03_Returned == (pc = "done" /\ best.has) => Designates(best)
 \* --- C04 (deterministic objective, one sample): the best value ever evaluated is never lost
-C04_BestKept == (pc = "done" /\ MaxSamples = 1) => \A i \in Pts : ~IsNaN(ptval[i]) => Leq(best.obj, ptval[i])
-C04_EveryIter == (pc = "loop" /\ MaxSamples = 1) =>
+C04_BestKept == (pc = "done" /\ MaxSamples = 1 /\ ~NoisyObjective) => \A i \in Pts : ~IsNaN(ptval[i]) => Leq(best.obj, ptval[i])
+C04_EveryIter == (pc = "loop" /\ MaxSamples = 1 /\ ~NoisyObjective) =>
                    LET inc == ObjOpt(mdl)
                        have == IF mdl.save.has /\ (Lt(mdl.save.obj, inc) \/ IsNaN(inc)) THEN mdl.save.obj ELSE inc
                    IN \A i \in Pts : ~IsNaN(ptval[i]) => Leq(have, ptval[i])
@@ -354,7 +367,7 @@ C07_DocumentedFlag == pc = "done" => exitInfo.flag # "auto"
 C11_JacNames == (pc = "done" /\ best.hasjac) => \A i \in 1..Len(best.jacen) : best.jacen[i] = 0 \/ best.jacen[i] \in Pts
 C11_Snapshot == \A i \in 1..Len(mdl.jacen) : mdl.jacen[i] = 0 \/ mdl.jacen[i] \in Pts
 \* --- C18 (levels)
-C18_Radii == pc \in {"loop", "safety", "tr", "trtail", "regress"} => (rho <= RhoLevels /\ rho >= rhoendL)
+C18_Radii == pc \in {"loop", "safety", "tr", "trtail", "trtailpos", "regress"} => (rho <= RhoLevels /\ rho >= rhoendL)
 \* --- termination (precondition of everything; fails as found: F-14)
 Termination == <>(pc = "done")
 TypeOK == /\ nf \in 0..(MaxFun + MaxSamples) /\ nx \in 0..(MaxFun + 1) /\ mdl.kopt \in 1..(NPT + IncNpt + 1)
